@@ -310,6 +310,35 @@ def _constant(job):
     return rec
 
 
+def _bigcall(job):
+    """one call with thousands of points on a model trained on thousands of points: every element is still evaluated for itself
+    (the same points in chunks of 512 give the same values), the CDF is still monotone and reaches its limits"""
+    mname, ndata, m, seed = job
+    rs = np.random.RandomState(seed)
+    X = np.concatenate([rs.normal(0.0, 1.0, ndata // 2), rs.normal(6.0, 2.0, ndata - ndata // 2)])
+    fac = dict(models())[mname]
+    probs = []
+    st = np.random.get_state()
+    try:
+        mod = fac(X)
+        mod.fit(X.copy())
+        grid = np.sort(rs.uniform(X.min() - 3.0, X.max() + 3.0, m))
+        qs = np.sort(rs.uniform(0.001, 0.999, m))
+        for name, f, arg in (('cdf', mod.cumulative_distribution, grid), ('pdf', mod.probability_density, grid), ('ppf', mod.percent_point, qs)):
+            whole = np.asarray(f(arg.copy()), dtype=float)
+            parts = np.concatenate([np.asarray(f(arg[i:i + 512].copy()), dtype=float) for i in range(0, m, 512)])
+            if whole.shape != parts.shape or not np.allclose(whole, parts, rtol=1e-9, atol=1e-9, equal_nan=True):
+                bad = int(np.argmax(np.abs(whole - parts))) if whole.shape == parts.shape else -1
+                probs.append(('elements-of-a-batch-not-evaluated-independently', '%s of %d points in one call differs from the same points in chunks (first at %d)' % (name, m, bad)))
+            if name in ('cdf', 'ppf') and np.any(np.diff(whole) < -1e-9):
+                probs.append(('%s-not-monotone' % name, '%d points in one call' % m))
+    except Exception as ex:
+        probs.append(('raised-' + type(ex).__name__, 'large call'))
+    finally:
+        np.random.set_state(st)
+    return probs
+
+
 def run(ctx):
     quick = ctx.tier == 'quick'
     ctx.rule = ('every univariate class and option set of the property (6 scipy families, TruncatedGaussian with and without bounds, GaussianKDE with '
@@ -326,6 +355,9 @@ def run(ctx):
     with Pool(16) as pool:
         obs = pool.map(_observe, jobs, chunksize=1)
         cobs = pool.map(_constant, cjobs, chunksize=4)
+        bjobs = [(mn, nd, mm, ctx.seed + 3 + i) for i, (mn, nd, mm) in enumerate([(mn, nd, mm) for mn in [x for x, _ in models()][:16] if mn.startswith(('GaussianKDE', 'GaussianUnivariate', 'BetaUnivariate'))
+                                                                                  for nd, mm in (((2600, 4100),) if quick else ((2600, 4100), (6500, 6500), (2000, 9000)))])][:(4 if quick else 24)]
+        bres = pool.map(_bigcall, bjobs, chunksize=1)
     skipped = [o for o in obs if o.get('skip')]
     obs = [o for o in obs if not o.get('skip')] + cobs
     ctx.extra['models_that_could_not_be_fitted'] = ['%s/%s/%d: %s' % (o['model'], o['shape'], o['n'], o['why']) for o in skipped]
@@ -342,5 +374,9 @@ def run(ctx):
             ctx.violation('C03|%s|%s|%s' % (o['model'], law, o['shape'] if o['kind'] == 'regular' else 'constant'),
                           '%s fitted on %s data (n=%d) violates %s %s' % (o['model'], o['shape'], o['n'], law, o.get('trace', '')),
                           {'model': o['model'], 'shape': o['shape'], 'n': o['n'], 'law': law})
+    for job, probs in zip(bjobs, bres):
+        ctx.case('bigcall|%s|%d|%d' % job[:3])
+        for p, detail in probs:
+            ctx.violation('C03|%s|%s|large-call' % (job[0], p), '%s trained on %d points: %s' % (job[0], job[1], detail), list(job))
     ctx.traces += len(obs)          # observation tables / samples of the real code judged by TLC
     ctx.exhaustive = False
